@@ -1,7 +1,8 @@
 """C10 — loading corrupt or hostile serialized data fails cleanly and atomically."""
+import os
 import re
 
-from analysis import a7
+from analysis import a7, extract
 from analysis.facts import strip_generics
 from analysis.guards import dominating_conditions, conditional_defs
 from . import a7_cones, a7_common
@@ -20,8 +21,9 @@ EXPLANATION = (
     "declared in the input: no with_capacity / reserve in data_format whose argument derives from a serde "
     "size_hint (serde's own cautious size hint caps pre-allocation)."
 )
-NOT_DECIDED = ("Allocation behaviour inside rmp-serde / serde (dependency) on declared lengths; that decoding "
-               "itself terminates (dependency).")
+NOT_DECIDED = ("Allocation behaviour inside rmp-serde / serde (dependencies) beyond the reviewed entry points: the "
+               "slice-backed decoder bounds every str/bin by the remaining input, serde's collection visitors cap their "
+               "pre-allocation; that decoding itself terminates (dependency).")
 
 
 def check(run):
@@ -106,6 +108,24 @@ def rule_alloc(run, F, cfg):
            f"fed by a serde size_hint); {n} capacity calls inspected; offending: {bad[:2]}", config=cfg,
            detail="rmp-serde's size_hint is the raw declared length: a 5-byte map header can request a "
                   "multi-gigabyte allocation; serde's built-in collection visitors cap it (cautious size hint)")
+    # the decoder reads from the borrowed input. rmp-serde's reader-backed decoder (`decode::from_read`,
+    # `Deserializer::new` / `from_read` over a ReadReader) serves every str / bin of declared length n by
+    # `buf.resize(n, 0)` BEFORE reading (rmp-serde 0.15.5 src/decode.rs, ReadReader::read_slice): ten bytes of input
+    # (magic, version, a str32 header) allocate and zero up to 4 GiB. The slice-backed one (`from_slice`,
+    # `from_read_ref`) rejects a declared length that exceeds the rest of the input (ReadRefReader::read_slice).
+    dec = []
+    for name, f in F.fns.items():
+        for b, t in f.calls(r"^rmp_serde::decode::(from_read|from_slice|from_read_ref)$|^rmp_serde::decode::Deserializer::<.*>::(new|from_read|from_read_ref)$|^rmp_serde::decode::Deserializer::(new|from_read|from_read_ref)$|^rmp_serde::from_read$|^rmp_serde::from_slice$|^rmp_serde::from_read_ref$"):
+            dec.append((strip_generics(t["callee"]).split("::")[-1], name, f.loc(b)))
+    reader_backed = [d for d in dec if d[0] in ("from_read", "new")]
+    lock = open(os.path.join(extract.REPO, "Cargo.lock")).read()
+    pinned = bool(re.search(r'name = "rmp-serde"\nversion = "0\.15\.', lock))
+    run.ob("C10.4.no-input-sized-allocation", "decoder-reads-the-borrowed-slice", len(dec) >= 1 and not reader_backed and pinned,
+           f"every rmp-serde decoding entry point used by the crate is slice-backed ({[(d[0], d[1].split('::')[-1]) for d in dec]}; "
+           f"reader-backed: {reader_backed}; rmp-serde 0.15.x pinned in Cargo.lock: {pinned})",
+           site=reader_backed[0][2] if reader_backed else (dec[0][2] if dec else ""), config=cfg,
+           detail="the reader-backed decoder sizes its buffer by the length declared in a str/bin header before a single "
+                  "payload byte is read")
     # hand-written Deserialize impls / visitors in data_format (derive output is under `_::_serde`)
     manual = [n2 for n2 in F.fns if n2.startswith("data_format") and "Visitor" in n2 and "_serde" not in n2]
     manual += [i["self"] for i in F.impls if i.get("trait", "").endswith("de::Visitor") and "data_format" in str(i.get("self")) and "__" not in str(i.get("self"))]
